@@ -1,3 +1,5 @@
+CONSTANTS
+  BeginOnce = TRUE
 SPECIFICATION Spec
 POSTCONDITION Accepted
 CHECK_DEADLOCK FALSE
